@@ -395,6 +395,8 @@ class StmtMixin:
         c0 = truthy(self.ev(s.test, env.clone(), mod, fn))
         if is_const(c0, False):
             return
+        if is_const(c0, True) and not isinstance(s.test, ast.Constant) and self._unroll_concrete_while(s, env, mod, fn, exits):
+            return
         before_vars = dict(env.vars)
         before_heap = dict(env.heap)
         probe = env.clone()
@@ -486,6 +488,39 @@ class StmtMixin:
             # while ... else: the else suite runs when the test becomes false, not after a break
             self.block(s.orelse, env, mod, fn, exits)
         self._join_breaks(env, frame)
+
+    def _unroll_concrete_while(self, s, env, mod, fn, exits, limit=64):
+        """A while loop whose test is decided by constants at every evaluation (a counter started from a constant) is
+        executed iteration by iteration like straight-line code.  A quiet dry run decides whether that is the case."""
+        dry = env.clone()
+        n = 0
+        self.quiet += 1
+        try:
+            while True:
+                c = truthy(self.ev(s.test, dry.clone(), mod, fn))
+                if c.k != "const":
+                    return False
+                if not c.a[0]:
+                    break
+                n += 1
+                if n > limit:
+                    return False
+                frame = {"breaks": [], "kind": "while", "node": s}
+                self._loop_body(s, dry, mod, fn, [], frame)
+                if frame["breaks"] or dry.dead:
+                    return False        # data-dependent exits: leave it to the summarising analysis
+        except Unsupported:
+            return False
+        finally:
+            self.quiet -= 1
+        for _ in range(n):
+            frame = {"breaks": [], "kind": "while", "node": s}
+            self._loop_body(s, env, mod, fn, exits, frame)
+            if env.dead:
+                return True
+        if s.orelse:
+            self.block(s.orelse, env, mod, fn, exits)
+        return True
 
     def infer_loop_invariants(self, s, env, head, mod_vars, entry_values, mod, fn):
         """Houdini-style inference of simple inductive invariants for a summarised while loop.
@@ -672,13 +707,22 @@ class StmtMixin:
         env.adopt(j)
 
     def st_With(self, s, env, mod, fn, exits):
+        vals = []
         for it in s.items:
             v = self.ev(it.context_expr, env, mod, fn)
+            vals.append(v)
             if it.optional_vars is not None:
                 self.assign(it.optional_vars, v, env, mod, fn)
         if not self.quiet:
             self.notes.append({"kind": "with", "node": s, "func": self.cur_func(), "where": self.loc(s)})
-        self.block(s.body, env, mod, fn, exits)
+        self.with_stack.extend(vals)
+        try:
+            self.block(s.body, env, mod, fn, exits)
+        finally:
+            del self.with_stack[len(self.with_stack) - len(vals):]
+        # leaving the block (normally, by return or by an exception) closes what it manages
+        for v in reversed(vals):
+            self.log_fileop("with-exit", v, (), {}, env, s)
 
     def st_FunctionDef(self, s, env, mod, fn, exits):
         self.unsupported("nested function", s)
